@@ -112,7 +112,7 @@ def c13_2(ctx: Ctx) -> RuleResult:
             res.add(pi, pi.node, f"`{key}` is computed", False, "violation never computed", construct=f"{key}")
             continue
         n = stores[0]
-        t = norm(X.at(pi, n.value))
+        t = norm(X.value_at(pi, n.value))
         # strip the immutable copy wrapper
         if t[0] == "call" and t[1][0] == "global" and t[1][1] == ic:
             t = t[2][0]
